@@ -6,7 +6,8 @@ Open Scope Q_scope.
 Definition nthq (l : list Q) (m : nat) : Q := nth m l 0.
 Definition rep (x : Q) (n : nat) : list Q := repeat x n.
 Definition qnat (n : nat) : Q := inject_Z (Z.of_nat n).
-Definition qsum (l : list Q) : Q := fold_right Qplus 0 l.
+(* sum; Qred only keeps the representation small (Qred q == q) *)
+Definition qsum (l : list Q) : Q := fold_right (fun x s => Qred (x + s)) 0 l.
 Definition rotate (k : nat) (l : list Q) : list Q := skipn k l ++ firstn k l.
 (* the series  [f 0; f 1; ...; f (n-1)] *)
 Definition tab (n : nat) (f : nat -> Q) : list Q := map f (seq 0 n).
